@@ -1220,6 +1220,11 @@ func (ctx *Context) evaluate() {
 			stName, stVal := stackPop2()
 			stInfo := code.Value.(StInfo)
 
+			if stInfo.Op == "-" && stVal.OpNegation() == nil {
+				ctx.Error = errors.New("此类型无法使用一元算符 -: " + stVal.GetTypeName())
+				return
+			}
+
 			if e.Config.CallbackSt != nil {
 				name, _ := stName.ReadString()
 				if stInfo.Op == "-" {
